@@ -67,6 +67,15 @@ static void tm_hook(int point) {
 static void tm_exec_ns(const xv_req *r, tm_res *o, xrl_error **keep, int noslot) {
   xrl_error *e = NULL; xv_resp rs; memset(&rs, 0, sizeof rs);
   if (r->fn >= 0 && r->fn < XV_NFN) rs.v[0] = xv_call(r->fn, r->i, r->d, xe_s(r->s), noslot ? NULL : &e);
+  else if (r->fn >= 2010 && r->fn <= 2015) {
+    /* entry points a legacy host calls from every worker: XRayInit (documented as a no-op kept for compatibility) and the deprecated
+     * error-handling switches; nothing to compare, they just have to be harmless next to everything else */
+#pragma GCC diagnostic push
+#pragma GCC diagnostic ignored "-Wdeprecated-declarations"
+    switch (r->fn) { case 2010: XRayInit(); break; case 2011: SetHardExit(0); break; case 2012: SetExitStatus(0); break; case 2013: rs.aux = 0 * GetExitStatus(); break;
+      case 2014: SetErrorMessages(0); break; default: rs.aux = 0 * GetErrorMessages(); break; }
+#pragma GCC diagnostic pop
+  }
   else xe_special(r, &rs, noslot ? NULL : &e);
   o->status = rs.status | (e ? 1 : 0); o->aux = rs.aux; o->v[0] = rs.v[0]; o->v[1] = rs.v[1]; o->v[2] = rs.v[2]; o->code = 0; o->mh = 0;
   if (e) { o->code = (int)e->code; o->mh = xv_fnv(e->message, strlen(e->message), XV_FNV0);
